@@ -42,6 +42,7 @@ import OpenFGAVerif.Proofs.DfsGClean
 import OpenFGAVerif.Model.CheckV1
 import OpenFGAVerif.Gen.CheckV2
 import OpenFGAVerif.Props.ReqClone
+import OpenFGAVerif.Props.ResolverKeys
 
 namespace OpenFGAVerif.C03
 open OpenFGAVerif.BoolSys OpenFGAVerif.DfsG OpenFGAVerif.CheckV2 OpenFGAVerif.Vocab
